@@ -755,6 +755,13 @@ func units(tier string) []kase {
 				out = append(out, kase{Part: "histories", Seq: []string{d}, Mask: 63, Living: living, Jobs: 1, Edit: e})
 			}
 			out = append(out, kase{Part: "histories", Seq: []string{d}, Mask: 63, Living: "hide", Jobs: 2, Edit: e})
+			if tier == "thorough" {
+				for _, mask := range []int{9, 62, 1} {
+					for _, living := range []string{"show", "hide", "placeholder"} {
+						out = append(out, kase{Part: "histories", Seq: []string{d}, Mask: mask, Living: living, Jobs: 3, Edit: e})
+					}
+				}
+			}
 		}
 	}
 	// names and closure through the command line
